@@ -46,8 +46,18 @@ type RunFunc func(opts verifmc.Options, param string) (*verifmc.Sched, *Result)
 
 var scenarios = map[string]RunFunc{}
 
-// Register makes a scenario available to driver and workers.
-func Register(name string, f RunFunc) { scenarios[name] = f }
+// Register makes a scenario available to driver and workers.  A parameter
+// ending in "+rev" runs the scenario under the reverse-priority default
+// scheduler (verifmc.Options.Reverse); the suffix is not passed on.
+func Register(name string, f RunFunc) {
+	scenarios[name] = func(opts verifmc.Options, param string) (*verifmc.Sched, *Result) {
+		if strings.HasSuffix(param, "+rev") {
+			opts.Reverse = true
+			param = strings.TrimSuffix(param, "+rev")
+		}
+		return f(opts, param)
+	}
+}
 
 // Violation is a confirmed, replayable failure.
 type Violation struct {
